@@ -26,7 +26,7 @@ CHECKS = {
     "C18": {
         "engine": "dbcache-sim",
         "level": "fault_enumeration",
-        "text": "Deterministic simulation of 1..16 real forked SPSDK processes doing first-use of the database on one cache folder: a seeded scheduler in the parent parks every process at every cache-folder system call (open/stat/remove/rename/flock/sleep), decides who runs next, kills processes at chosen yield points, tears cache writes at chosen byte lengths, leaves a lock holder unscheduled beyond the 10 s lock time-out, and edits data files between runs (size-changing and size-preserving edits); prefix sweeps enumerate truncation lengths of both cache files (quick: every byte length of the quick-info cache; thorough: every byte length of both tiny-profile files). Oracles: never fatal, answers equal to a no-cache reference process, cache healed within two clean starts. Sampling, not proof: crash points are enumerated, interleavings are sampled.",
+        "text": "Deterministic simulation of 1..16 real forked SPSDK processes doing first-use of the database on one cache folder (a quarter of the runs with processes that also import SPSDK themselves under the interposer, some with the cache folder absent; one family with restricted-data and add-ons folders): a seeded scheduler in the parent parks every process at every cache-folder system call (open/stat/remove/rename/flock/sleep), decides who runs next (seeded, bursty and lockstep schedules; processes descheduled for 60-1000 ms at chosen seams, by index or by kind - right before remove / open-for-write / commit), kills processes at chosen yield points, tears cache writes at chosen byte lengths, leaves a lock holder unscheduled beyond the 10 s lock time-out, and edits or deletes data files between runs (size-changing and size-preserving edits); prefix sweeps enumerate truncation lengths of both cache files (quick: every byte length of the quick-info cache; thorough: every byte length of both tiny-profile files). Oracles: never fatal (incl. a liveness bound in simulated time), answers equal to a no-cache reference process, cache healed within two clean starts. Sampling, not proof: crash points are enumerated, interleavings are sampled.",
         "note": "Trusted: the scheduler/interposer in /verif/c18, pre-emption only at cache-folder system calls, the reference process of the same tree (only cache-induced differences are flagged), kernel flock semantics. Disk-full and bit rot are out of scope.",
         "technique": "deterministic simulation with fault injection: seeded schedule search over real forked processes parked at file-system seams, kill/torn-write/prefix enumeration, history oracles against a no-cache reference",
         "design_ref": "4.1",
